@@ -76,6 +76,9 @@ def winds(hist):
         f0 = hist[t]["obs"][0][0]
         if f0 < 0:
             continue
+        if hist[t + 1]["gap"] == 1:          # Tracking!MISSINGGAP: the wind of the previous step is missing (NaN) or calm (0: inf * 0)
+            w[t] = float("nan") if (t + f0) % 20 else 0.0
+            continue
         r = wind_for_gap(f0, hist[t + 1]["gap"])
         if r is None:
             return None
@@ -203,10 +206,10 @@ def run(ctx):
                 "match_consecutive_partitions, np_track_partitions and track_partitions (2 sites); random histories are validated "
                 "by TrackingTrace. distinct_nontrivial = distinct histories with at least one non-missing partition.")
     # ---- 1. invariants, exhaustive
-    plan = [(3, "A1", "G1", 2), (3, "A3", "G2", 1), (2, "A4", "G1", 2), (3, "A5", "G1", 1), (2, "A2", "G1", 2)]
+    plan = [(3, "A1", "G4", 2), (3, "A3", "G2", 1), (2, "A4", "G1", 2), (3, "A5", "G1", 1), (2, "A2", "G1", 2), (3, "A3", "G4", 1)]
     if not ctx.quick:
         plan = [(3, "A1", "G1", 2), (3, "A2", "G1", 2), (3, "A3", "G3", 2), (2, "A4", "G2", 3), (3, "A5", "G1", 2),
-                (4, "A3", "G1", 1), (2, "A2", "G1", 4), (3, "A4", "G1", 1)]
+                (4, "A3", "G1", 1), (2, "A2", "G1", 4), (3, "A4", "G1", 1), (3, "A3", "G5", 2), (3, "A1", "G4", 2)]
     for (npart, alpha, gaps, T) in plan:
         r = ctx.tlc("MC_Tracking", cfg(npart, alpha, gaps, T, False), label="invariants NP=%d %s %s T=%d" % (npart, alpha, gaps, T))
         for inv in r.violated:
@@ -214,7 +217,7 @@ def run(ctx):
     ctx.exhaustive = True
     # ---- 2. behaviours: exhaustive short + simulated long
     behaviours = []
-    short = [(3, "A1", "G1", 1), (3, "A3", "G2", 1), (2, "A4", "G1", 1), (3, "A5", "G1", 1), (3, "A2", "G1", 1)]
+    short = [(3, "A1", "G4", 1), (3, "A3", "G2", 1), (2, "A4", "G1", 1), (3, "A5", "G1", 1), (3, "A2", "G1", 1), (3, "A3", "G4", 1)]
     for (npart, alpha, gaps, T) in short:
         r = ctx.tlc("MC_Tracking", cfg(npart, alpha, gaps, T, True, inv=False), workers=4,
                     label="emit NP=%d %s T=%d" % (npart, alpha, T))
@@ -222,7 +225,7 @@ def run(ctx):
     # in -simulate mode TLC evaluates invariants on every generated successor, so each trace of depth T+1 prints
     # ~|successors| complete behaviours that share a prefix and differ in the last step
     nsim = 8 if ctx.quick else 80
-    for (npart, alpha, gaps) in [(3, "A1", "G1"), (3, "A3", "G3"), (2, "A4", "G2"), (3, "A5", "G1"), (4, "A2", "G1"), (3, "A4", "G1")]:
+    for (npart, alpha, gaps) in [(3, "A1", "G1"), (3, "A3", "G5"), (2, "A4", "G2"), (3, "A5", "G4"), (4, "A2", "G1"), (3, "A4", "G1")]:
         for T in ((6,) if ctx.quick else (4, 8, 12)):
             r = ctx.tlc("MC_Tracking", cfg(npart, alpha, gaps, T, True, inv=True), workers=1, simulate="num=%d" % nsim,
                         depth=T + 1, seed=ctx.seed + T, expect_ok=False, label="simulate NP=%d %s T=%d" % (npart, alpha, T))
@@ -251,7 +254,7 @@ def run(ctx):
         # step level: match_consecutive_partitions with exact off-lattice thresholds
         fp, dpm = arrays(hist, npart)
         for t in range(1, len(hist)):
-            m = tracking.match_consecutive_partitions(fp[:, t - 1:t + 1], dpm[:, t - 1:t + 1], hist[t]["gap"] / 1000.0,
+            m = tracking.match_consecutive_partitions(fp[:, t - 1:t + 1], dpm[:, t - 1:t + 1], float("nan") if hist[t]["gap"] == 1 else hist[t]["gap"] / 1000.0,
                                                       DF_SWELL / 1000.0, DD_SEA, DD_SWELL)
             if not hist[t]["tie"] and [int(x) for x in m] != hist[t]["m"]:
                 ctx.violation({"where": "replay", "fn": "match_consecutive_partitions", "np": npart},
@@ -355,7 +358,7 @@ def run(ctx):
             if rng.random() < 0.25:
                 rng.shuffle(new)     # partitions change rank (ordered by Hs in the library): crossings
             state = new
-            hist.append({"obs": [list(o) for o in state], "gap": rng.choice((-5, -15)) if t else 0})
+            hist.append({"obs": [list(o) for o in state], "gap": rng.choice((-5, -15, -5, -15, 1)) if t else 0})
         try:
             out = run_np_track(tracking, hist, npart)
         except Exception as ex:  # noqa
